@@ -52,7 +52,9 @@ class C03(Prop):
     id = "C03"
     theorems = ["lastSel_some_iff", "lastSel_get", "put_frame", "put_writes", "put_shape", "selCoord_expand", "get_put",
                 "put_labels_unchanged", "put_kind", "maybeCast_table_agrees", "maybeCast_table_lossless",
-                "maybeCast_table_covers_numeric_object", "putBool_spec", "putBool_shape_error"]
+                "maybeCast_table_covers_numeric_object", "putBool_spec", "putBool_shape_error", "put_writes_what_take_reads", "putResult_cells", "put_label_eq", "put_label_spec", "put_label_scalar", "put_label_array",
+                "put_ok_iff", "put_unresolved_error", "put_misfit_error", "put_normalize_error", "put_error_generic", "take_put_generic",
+                "take_put", "take_put_scalar", "take_put_array", "put_cast_only_kind", "maybeCastKind_spec", "put_mask_length_unchecked_counterexample"]
     rule = ("arrays of rank 0-4 (bool/int/float/object values) and every index form of C01/C02 (label and position "
             "scalars, lists with repeats, masks, slices, dicts by name/position, axis=, Ellipsis, full N-d boolean masks); "
             "scalar, 0-d and broadcastable array right-hand sides of kind bool/int/float/str; spellings a[idx]=v, "
